@@ -1100,22 +1100,6 @@ func (m *Machine) Remove(states S, args A) Result {
 		}
 	}
 
-	// return early if none of the states is active
-	m.queueMx.RLock()
-	lenQueue := len(m.queue)
-
-	// try ignoring this mutation, if none of the states is currently active
-	var statesAny []S
-	for _, name := range states {
-		statesAny = append(statesAny, S{name})
-	}
-
-	if lenQueue == 0 && m.Transition() != nil && !m.Any(statesAny...) {
-		m.queueMx.RUnlock()
-		return Executed
-	}
-
-	m.queueMx.RUnlock()
 	queueTick := m.queueMutation(MutationRemove, states, args, nil)
 	if queueTick == uint64(Executed) {
 		return Executed
@@ -3300,22 +3284,6 @@ func (m *Machine) EvRemove(event *Event, states S, args A) Result {
 		return Canceled
 	}
 
-	// return early if none of the states is active
-	m.queueMx.RLock()
-	lenQueue := len(m.queue)
-
-	// try ignoring this mutation, if none of the states is currently active
-	var statesAny []S
-	for _, name := range states {
-		statesAny = append(statesAny, S{name})
-	}
-
-	if lenQueue == 0 && m.Transition() != nil && !m.Any(statesAny...) {
-		m.queueMx.RUnlock()
-		return Executed
-	}
-
-	m.queueMx.RUnlock()
 	queueTick := m.queueMutation(MutationRemove, states, args, event)
 	if queueTick == uint64(Executed) {
 		return Executed
